@@ -225,10 +225,89 @@ def _quorum(res, tier, bindir):
     _canary(res, "quorum", "QuorumTrace", trace, _drop_err, "dropped error")
 
 
+def _dup_join(evs):
+    for i, e in enumerate(evs):
+        if e.get("e") == "join":
+            evs.insert(i + 1, dict(e))
+            return True
+    return False
+
+
+def _drop_join(evs):
+    for i, e in enumerate(evs):
+        if e.get("e") == "join":
+            del evs[i]
+            return True
+    return False
+
+
+def _wrong_meta(evs):
+    for e in evs:
+        if e.get("e") == "join":
+            e["m"] += 1
+            return True
+    return False
+
+
+def _join(res, tier, bindir):
+    """join_responses: same scheme with the JoinResp* modules."""
+    thorough = tier == "thorough"
+    exe = os.path.join(bindir, "hv_quorum")
+    d = vlib.rundir("quorum")
+
+    cfg = _cfg("join_mc.cfg", "SPECIFICATION Spec\nCONSTANTS\n  MaxKeys = %d\nINVARIANTS Inv Persist\n"
+                              "CHECK_DEADLOCK FALSE\n" % (4 if thorough else 3))
+    r = vlib.tlc(SD, "JoinRespImpl", cfg=cfg, workers=8, timeout=3000, xmx="8g")
+    if not r.ok:
+        raise vlib.ToolError("JoinRespImpl model check failed (spec/design error):\n" + r.error_trace[-3000:])
+    vlib.require_coverage(r, ["SendMeta", "SendResp", "Slice", "Quiesce"])
+    res.add_tlc(r, "JoinRespImpl exhaustive (<=%d keys, all interleavings respecting the contract, all batchings)"
+                % (4 if thorough else 3))
+
+    cfg = _cfg("join_gen.cfg", "SPECIFICATION Spec\nCONSTANTS\n  MaxKeys = %d\n  Stages = %d\nCHECK_DEADLOCK FALSE\n"
+               % ((3, 3) if thorough else (3, 2)))
+    r = vlib.tlc(SD, "JoinRespGen", cfg=cfg, workers=1, timeout=1200, coverage=False)
+    if not r.ok:
+        raise vlib.ToolError("JoinRespGen failed:\n" + r.error_trace[-3000:])
+    cases = vlib.printed_json(r, "CASE")
+    if len(cases) < 100:
+        raise vlib.ToolError("JoinRespGen produced only %d cases" % len(cases))
+    cases.sort(key=lambda c: json.dumps(c, sort_keys=True))
+    casefile = os.path.join(d, "join_cases.ndjson")
+    vlib.write_ndjson(casefile, cases)
+    trace = os.path.join(d, "join_replay_trace.ndjson")
+    summ = _run_harness(exe, ["join-replay", casefile, trace])
+    if summ["schedules"] < len(cases):
+        raise vlib.ToolError("fewer schedules (%d) than cases (%d)" % (summ["schedules"], len(cases)))
+    viol, _ = _validate("JoinRespTrace", trace, res, "join-replay")
+    _report(res, "join", trace, viol, set(), "replayed")
+    res.traces += summ["schedules"]
+    res.evaluations += summ["schedules"]
+    res.extra["join_replay"] = {"cases": len(cases), "schedules": summ["schedules"]}
+    res.distinct_nontrivial += len({json.dumps(c["stages"]) for c in cases if len(c["exp"][-1]) >= 2})
+    res.samples.append({"kind": "TLC-generated join_responses case (ops [0,k] = metadata, [1,k] = response; exp = keys joined after each stage)",
+                        **cases[len(cases) // 2]})
+
+    rtrace = os.path.join(d, "join_random_trace.ndjson")
+    summ = _run_harness(exe, ["join-random", 150 if thorough else 30, 4, 3, rtrace])
+    viol, _ = _validate("JoinRespTrace", rtrace, res, "join-random")
+    rcases, _, _ = _report(res, "join", rtrace, viol, set(), "random")
+    res.traces += summ["schedules"]
+    res.evaluations += summ["schedules"]
+    res.extra["join_random"] = {"cases": summ["cases"], "schedules": summ["schedules"]}
+    res.distinct_nontrivial += len({json.dumps(evs[0]["inp"]) for evs in rcases.values()
+                                    if len([e for e in evs if e["e"] == "join"]) >= 2})
+
+    _canary(res, "join", "JoinRespTrace", trace, _dup_join, "duplicated join output")
+    _canary(res, "join", "JoinRespTrace", trace, _drop_join, "dropped join output")
+    _canary(res, "join", "JoinRespTrace", trace, _wrong_meta, "joined with other metadata")
+
+
 def run(tier):
     res = vlib.PropResult("C39")
     bindir = vlib.cargo_build("hv_std", bins=["hv_quorum"], features=["runner"], workspace="harness_hydro")
     _quorum(res, tier, bindir)
+    _join(res, tier, bindir)
     res.rule = ("case = (helper, min, max, response sequence, stage split) x one explored simulator schedule; "
                 "non-trivial = at least 2 keys and at least one key reaches its quorum; distinct by "
                 "(helper, min, max, sequence)")
@@ -238,6 +317,7 @@ def run(tier):
         "NoOrder inputs are covered by enumerating all sequences (orders) with prefix batches",
         "quiescence of the simulator (sim::quiesce) = every sent response has been released into a slice",
         "collect_quorum_with_response, min<max: how many responses beyond min are released depends on batching; C39 as stated constrains keys and 'once', not that number",
+        "join_responses contract: one metadata and one response per key; a response is sent only after the acknowledgement of its metadata was observed (or its key never gets metadata)",
     ]
     return {"C39": res}
 
